@@ -336,6 +336,7 @@ impl Case {
             Mode::Stdout => sc.argv.extend(["--mode".into(), "stdout".into()]),
             _ => {}
         }
+        sc.argv.extend(self.extra_args.iter().cloned());
         sc.argv.push(self.files[i].path.clone());
         sc.files = vec![self.files[i].clone()];
         sc.workers = 1;
